@@ -136,6 +136,29 @@ class AgentsPlugin(Plugin):
         self.granted = {a.agent_id: {m.market_id for m in mon.markets if a.is_market_accessible(m.market_id)}
                         for a in mon.agents}
 
+    def finish(self, mon, completed):
+        """after the run (no draw of the run is disturbed any more): the per-market entry point of the FCN family
+        asked directly for a market the agent was not given - it has to decline."""
+        if not completed:
+            return
+        for a in mon.agents:
+            fn = getattr(a, "submit_orders_by_market", None)
+            if fn is None or not getattr(a, "_vsim_probe", False):
+                continue
+            for m in mon.markets:
+                if m.market_id in self.granted.get(a.agent_id, ()) or not m.is_running:
+                    continue
+                try:
+                    out = fn(market=m)
+                except Exception:
+                    continue
+                mon.probe("per_market_entry_point_asked_for_inaccessible_market")
+                if out:
+                    mon.viol("C20", "malformed_order", {"agent": a.name, "why": "market not accessible",
+                                                        "entry_point": "submit_orders_by_market", "market": m.name,
+                                                        "order": repr(out[0])})
+                    return
+
     # every order an agent returns is well-formed
     def well_formed(self, mon, agent, out, ttl=None):
         ok = True
